@@ -349,9 +349,6 @@ def run_split(model: Model, modname, clsname, meth, rd: RefdomInfo, kwargs):
                 from ..refcell import IdxArr
                 return IdxArr("cell", 0, lo)
         r = base(interp, name, args, kwargs_, node)
-        if r is NotImplemented and name == "numpy.max" and \
-                isinstance(args[0], ConnTable):
-            return SZ - 1
         return r
     obj = mesh_obj(model, cls, rd, tags=False)
     obj.attrs["subdomains"] = {"s": Poly.sym("v")}
